@@ -2,13 +2,81 @@ import AutoVerif.Drv.C06
 /-
 Driver for C07: same replay engine as C06 (Drv/C06.lean); the oracle is
 "each filter output = Spec filter of its input w.r.t. the history".
+
+Flow cases (`kind = "flow"`): a plugin built by the public factory accepted a
+report for `w` (and possibly polled an event for it); `w` is then offered again
+through one path (log provider, recoverable provider, surfaced proposals of the
+previous outcome, conditional sampler, retry queue) or was staged / proposed
+before the acceptance.  The model says whether `w` may be processed / proposed in
+that situation; the implementation's check-pipeline call log and next
+observation must agree, and Ω demands that withheld work appears in neither.
 -/
 open Lean AutoVerif.Codec
 namespace AutoVerif.C07
 open AutoVerif.C06
 
+def flowReply (input impl : Json) : R Reply := do
+  let path ← strF input "path"
+  let ty ← natF input "type"
+  let phase ← strF input "phase"
+  let cfg ← cfgOf (← field input "cfg")
+  let b ← natF input "b"
+  let tb ← natF input "tb"
+  let ety ← natF input "ety"
+  let cb ← natF input "cb"
+  let utype : String → UpkeepType := fun _ => utypeOfNat ty
+  let ev (t : Nat) : Event := { workID := "w", txHash := "07", ttype := t, transmitBlock := tb, checkBlock := b, conf := cfg.minConf }
+  let ops : List Op ← match phase with
+    | "pending" => pure [Op.accept "w" b, .advance 1000000000]
+    | "performed" => pure [Op.accept "w" b, .advance 1000000000, .poll [ev performEvent], .advance 1000000000]
+    | "failed" => pure [Op.accept "w" b, .advance 1000000000, .poll [ev ety], .advance 1000000000]
+    | "expired" => pure [Op.accept "w" b, .advance (cfg.window + 1000000)]
+    | _ => throw s!"unknown phase {phase}"
+  let sys := run cfg ops
+  let mayProcess := specProcess utype cfg sys.log sys.st.now "w" "u" cb
+  let mayPropose := specPropose utype cfg sys.log sys.st.now "w" "u"
+  -- the model's own answers (theorems shouldProcess_eq_spec / proposalAllowed_eq_spec)
+  let specM := (shouldProcess utype sys.st "w" "u" cb == mayProcess) && (proposalAllowed utype sys.st "w" "u" == mayPropose)
+  let accepted ← boolF impl "accepted"
+  let wChecked ← boolF impl "wChecked"
+  let ctlChecked ← boolF impl "ctlChecked"
+  let wResult ← boolF impl "wResult"
+  let ctlResult ← boolF impl "ctlResult"
+  let wProposal ← boolF impl "wProposal"
+  let ctlProposal ← boolF impl "ctlProposal"
+  let err := match fieldD impl "err" .null with | .str s => s | _ => ""
+  let offered := path != "staged-result" && path != "staged-proposal"
+  -- correspondence: the control work went through, and `w` did exactly when the model allows it
+  let (agree, diff) :=
+    if !err.isEmpty then (false, s!"harness error: {err}")
+    else if !accepted then (false, "the report was not accepted")
+    else if offered then
+      if !ctlChecked then (false, s!"the {path} path did not deliver the control work to the check pipeline")
+      else if wChecked != mayProcess then (false, s!"{path}: model process={mayProcess} impl checked={wChecked}")
+      else (true, "")
+    else if path == "staged-result" then
+      if !ctlResult then (false, "the staged control result is not in the observation")
+      else if wResult != mayProcess then (false, s!"staged result: model keep={mayProcess} impl in observation={wResult}")
+      else (true, "")
+    else
+      if !ctlProposal then (false, "the control proposal is not in the observation")
+      else if wProposal != mayPropose then (false, s!"staged proposal: model keep={mayPropose} impl in observation={wProposal}")
+      else (true, "")
+  let fail :=
+    if !mayProcess && wChecked then s!"in-flight work reached the check pipeline through the {path} flow"
+    else if !mayProcess && wResult then s!"in-flight work is a performable of the observation ({path})"
+    else if !mayPropose && wProposal then s!"in-flight work is a proposal of the observation ({path})"
+    else ""
+  pure { agree := agree, specModel := specM, specImpl := fail.isEmpty, diff := diff, fail := fail,
+         nontrivial := (if offered then ctlChecked else ctlResult || ctlProposal),
+         tags := [s!"flow:{path}", s!"flow:type={ty}", s!"flow:{phase}",
+                  s!"flow:{if mayProcess then "released" else "withheld"}"],
+         key := s!"flow/{path}/{ty}/{phase}/{cb}/{cfg.minConf}/{cfg.window}" }
+
 def handle (input impl : Json) : R Reply := do
-  if let some k := isRace input then return ← raceReply k input impl
+  if let some k := isRace input then
+    if k == "flow" then return ← flowReply input impl
+    return ← raceReply k input impl
   let e ← replay true input impl
   pure { agree := e.agree, specModel := e.specM, specImpl := e.specI, diff := e.diff, fail := e.fail,
          nontrivial := decide (e.nKnownItems ≥ 1),
